@@ -48,7 +48,7 @@ package vars
 //@   loop 1 invariant ncalls >= 1 ==> callarg2(0) === v0
 //@   exit [variable-set-at-most-once] ncallsof("Var.Set") <= 1
 //@   exit [not-set-when-an-assoc-fails] (forall k int :: 0 <= k && k < ncalls && callis(k, "vals.Assoc") ==> callerr(k) === nil) || ncallsof("Var.Set") == 0
-//@   exit [set-to-the-nested-assoc] ncallsof("Var.Set") == 1 ==> ncalls == old(len(ev.assocers)) + 1 && callis(ncalls - 1, "Var.Set") && callarg(ncalls - 1) === callres(ncalls - 2) && callfn(ncalls - 1) === 0
+//@   exit [set-to-the-nested-assoc] ncallsof("Var.Set") == 1 ==> ncalls == old(len(ev.assocers)) + 1 && callis(ncalls - 1, "Var.Set") && callarg(ncalls - 1) === callres(ncalls - 2) && callfn(ncalls - 1) === recvid(old(ev.variable))
 //@   exit [innermost-assoc-gets-the-new-value] ncalls >= 1 && callis(0, "vals.Assoc") ==> callarg2(0) === v0
 //@   exit [each-assoc-wraps-the-previous-result] forall k int :: 1 <= k && k < ncalls && callis(k, "vals.Assoc") ==> callarg2(k) === callres(k - 1)
 
